@@ -3,7 +3,7 @@ import itertools
 
 
 def inputs(tier="quick"):
-    from .props import c01, c02, c04, c09, c17, c18
+    from .props import c01, c02, c04, c09, c11, c17, c18
 
     out = []
     # C01 family B (1-2 columns, one layout) and family C (pairs)
@@ -35,7 +35,16 @@ def inputs(tier="quick"):
     for i, d in enumerate(c18.D()):
         if i % 5 == 0 and not d.get("noas") and not d.get("unsized"):
             out.append(("c18", c18.build({"d": i, "ctx": "used" if d.get("use") else "before-table"})))
+    dial = []
+    # C11: every catalogued dialect clause on the plain body, and the creation modifiers that set dialect fields
+    for owner, clause, _d1, _d2 in c11.CAT:
+        dial.append(("c11", c11.BODIES["plain"] + " " + clause + ";"))
+    for head in ("CREATE EXTERNAL TABLE", "CREATE TEMPORARY TABLE", "CREATE TEMP TABLE", "CREATE TRANSIENT TABLE", "CREATE GLOBAL TEMPORARY TABLE",
+                 "CREATE OR REPLACE TABLE", "CREATE TABLE IF NOT EXISTS"):
+        dial.append(("c11m", head + " s.t (a int, b varchar(10), dt date);"))
+    dial.append(("c11m", "CREATE TABLE s.t (a int, b varchar(10), dt date);\nCREATE TABLE s.t2 CLONE s.t;"))
+    dial.append(("c11m", "CREATE TABLE s.t (a int ENCODE zstd, b varchar(10), dt date) SORTKEY (a) ENCODE auto;"))
     if tier != "thorough":
         # quick tier: a fixed slice (every 2nd) keeps the product with 15 modes x 2 x 2 affordable
         out = out[::2]
-    return out
+    return out + dial
